@@ -406,6 +406,59 @@ func (r *Rig) LeaseCtx(token string, initWait time.Duration, ctx context.Context
 	return res
 }
 
+// LeaseOneway does what the proxy does for a oneway request (a request that expects no response, bolt command type
+// REQUEST_ONEWAY): (CheckAndInit,) NewStream WITHOUT a receiver, then the request is sent; the proxy never touches
+// the upstream stream again. Multiplex xprotocol pool only.
+func (r *Rig) LeaseOneway(token string, initWait time.Duration) LeaseResult {
+	ctx := codec.NewCtx()
+	var res LeaseResult
+	end := time.Now().Add(initWait)
+	for {
+		var got bool
+		if h := r.call("CheckAndInit", func() { got = r.Pool.CheckAndInit(ctx) }); h != nil {
+			res.Hang = h
+			return res
+		}
+		if got {
+			break
+		}
+		if time.Now().After(end) {
+			res.NotInit = true
+			return res
+		}
+		time.Sleep(200 * time.Microsecond)
+	}
+	var sender types.StreamSender
+	var reason types.PoolFailureReason
+	if h := r.call("NewStream", func() { _, sender, reason = r.Pool.NewStream(ctx, nil) }); h != nil {
+		res.Hang = h
+		return res
+	}
+	if reason != "" || sender == nil {
+		res.Reason = reason
+		if reason == "" {
+			res.Reason = "nil-sender"
+		}
+		return res
+	}
+	var err error
+	h := r.call("AppendHeaders", func() {
+		req := bolt.NewRpcRequest(0, nil, buffer.NewIoBufferString("tok="+token))
+		req.CmdType = bolt.CmdTypeRequestOneway
+		req.Set("service", "verif.svc")
+		req.Set(TokenHeader, token)
+		err = sender.AppendHeaders(ctx, req, true)
+	})
+	if h != nil {
+		res.Hang = h
+		return res
+	}
+	if err != nil {
+		res.SendErr = err.Error()
+	}
+	return res
+}
+
 // Reset is the proxy's local reset of an upstream request (timeout, downstream gone, retry): the
 // proxy always uses types.StreamLocalReset (pkg/proxy/upstream.go resetStream).
 func (r *Rig) Reset(s *Stream) *Hang {
